@@ -420,7 +420,7 @@ func init() {
 	register(&Property{
 		ID: "C04", Race: true, Plain: true, Level: "exploration",
 		Rule:   "cases = rapid-generated logical joins (two aliased tables of 0-6 rows, 1-3 key column pairs of one scalar kind each with duplicate keys and per-side column names in arbitrary order, ON = tree of 1-4 column-to-column comparisons over = != < <= > >= joined by AND/OR with either orientation, join type inner/left/right) plus a fixed corpus; each logical join is executed once per strategy spelling of its type (8-10 spellings: automatic, HASH_JOIN, STRAIGHT_JOIN, PARALLEL variants), PARALLEL spellings in a -race child under three schedule/map-order configurations; every execution is compared as a multiset with a textbook nested-loop join computed by the driver; non-trivial = >=2 tasks runnable at some yield or a non-identity map order was applied; distinct = distinct case-file hash",
-		Corpus: corpusC04, Gen: genC04, Eval: evalC04, QuickChecks: 50,
+		Corpus: corpusC04, Gen: genC04, Eval: evalC04, QuickChecks: 40,
 		Assumptions: []string{
 			"each key column pair holds one scalar kind (number or string) and no NULLs: the statement fixes nothing about cross-kind or NULL key comparison",
 			"ThreadSanitizer on the controlled schedule decides unsynchronised appends to the join result; race reports outside join.go are left to C13",
